@@ -968,6 +968,10 @@ buildCommand(BuildContext& context, ninja::Command* command) {
     bool hasPriorResult = false;
     CommandSignature priorCommandHash;
 
+    /// The oldest recorded modification time of the outputs of the prior
+    /// (successful) result, i.e. of what the command itself produced.
+    FileTimestamp priorOutputModTime{ 0, 0 };
+
     /// The timestamp of the most recently rebuilt input.
     FileTimestamp newestModTime{ 0, 0 };
 
@@ -1070,6 +1074,11 @@ buildCommand(BuildContext& context, ninja::Command* command) {
       if (value.isSuccessfulCommand()) {
         hasPriorResult = true;
         priorCommandHash = value.getCommandHash();
+        for (unsigned i = 0, e = value.getNumOutputs(); i != e; ++i) {
+          const FileTimestamp& time = value.getNthOutputInfo(i).modTime;
+          if (i == 0 || time < priorOutputModTime)
+            priorOutputModTime = time;
+        }
       } else if (value.isFailedCommand()) {
         // Retry a command that failed last time even if it left its outputs
         // behind (matters for generator commands, which skip the command hash
@@ -1182,6 +1191,13 @@ buildCommand(BuildContext& context, ninja::Command* command) {
         // can't update it.
         if (!command->hasGeneratorFlag() &&
             (!hasPriorResult || priorCommandHash != commandHash))
+          canUpdateIfNewer = false;
+
+        // As in Ninja, an output which is newer on disk than the inputs is
+        // still out of date when what the command is recorded to have produced
+        // is older than an input: an earlier run wrote to the output but was
+        // interrupted before its result was recorded.
+        if (hasPriorResult && priorOutputModTime < newestModTime)
           canUpdateIfNewer = false;
 
         if (canUpdateIfNewer) {
